@@ -466,9 +466,60 @@ var routeDefs = []routeDef{
 	{"POST", "/dir/", false},
 }
 
-func build(w *world, special bool) *fox.Router {
+// how the recovery middleware is constructed, and with which log handler
+const (
+	rvCapture    = iota // CustomRecoveryWithLogHandler(handler enabled at every level)
+	rvDiscard           // CustomRecoveryWithLogHandler(slog.DiscardHandler)
+	rvAboveError        // CustomRecoveryWithLogHandler(handler enabled above Error only)
+	rvFailing           // CustomRecoveryWithLogHandler(handler whose Handle returns an error)
+	rvRecovery          // Recovery()  (fox's own handler: records not observable here)
+	rvCustom            // CustomRecovery(func calling DefaultHandleRecovery)  (idem)
+	nRecoveryVariants
+)
+
+var rvNames = []string{"CustomRecoveryWithLogHandler(capture)", "CustomRecoveryWithLogHandler(slog.DiscardHandler)",
+	"CustomRecoveryWithLogHandler(level>Error)", "CustomRecoveryWithLogHandler(Handle returns error)", "Recovery()", "CustomRecovery(default)"}
+
+func rvEnabled(v int) bool { return v != rvDiscard && v != rvAboveError }
+func rvVisible(v int) bool { return v != rvRecovery && v != rvCustom }
+
+// captureOpt: capture with a minimum level and an optional error returned by Handle
+type captureOpt struct {
+	w    *world
+	min  slog.Level
+	fail bool
+}
+
+func (h captureOpt) Enabled(_ context.Context, l slog.Level) bool { return l >= h.min }
+func (h captureOpt) Handle(ctx context.Context, r slog.Record) error {
+	_ = capture{h.w}.Handle(ctx, r)
+	if h.fail {
+		return errors.New("log sink unavailable")
+	}
+	return nil
+}
+func (h captureOpt) WithAttrs([]slog.Attr) slog.Handler { return h }
+func (h captureOpt) WithGroup(string) slog.Handler      { return h }
+
+func recoveryMW(w *world, variant int) fox.MiddlewareFunc {
+	switch variant {
+	case rvDiscard:
+		return fox.CustomRecoveryWithLogHandler(slog.DiscardHandler, fox.DefaultHandleRecovery)
+	case rvAboveError:
+		return fox.CustomRecoveryWithLogHandler(captureOpt{w: w, min: slog.LevelError + 4}, fox.DefaultHandleRecovery)
+	case rvFailing:
+		return fox.CustomRecoveryWithLogHandler(captureOpt{w: w, min: slog.LevelDebug, fail: true}, fox.DefaultHandleRecovery)
+	case rvRecovery:
+		return fox.Recovery()
+	case rvCustom:
+		return fox.CustomRecovery(func(c fox.Context, err any) { fox.DefaultHandleRecovery(c, err) })
+	}
+	return fox.CustomRecoveryWithLogHandler(capture{w}, fox.DefaultHandleRecovery)
+}
+
+func build(w *world, special bool, variant int) *fox.Router {
 	opts := []fox.GlobalOption{
-		fox.WithMiddleware(fox.CustomRecoveryWithLogHandler(capture{w}, fox.DefaultHandleRecovery)),
+		fox.WithMiddleware(recoveryMW(w, variant)),
 		fox.WithMiddleware(inner),
 		fox.WithRedirectTrailingSlash(true),
 	}
@@ -736,12 +787,29 @@ func main() {
 
 	// ================= panic cases =================
 	w := [2]*world{{}, {}}
-	routers := [2]*fox.Router{build(w[0], false), build(w[1], true)}
-	rebuild := func(i int) { w[i] = &world{}; routers[i] = build(w[i], i == 1) }
+	routers := [2]*fox.Router{build(w[0], false, rvCapture), build(w[1], true, rvCapture)}
+	// the other recovery variants: one router pair each, built on first use
+	var vw [nRecoveryVariants][2]*world
+	var vrouters [nRecoveryVariants][2]*fox.Router
+	rvForce := -1
+	rebuild := func(i int) { w[i] = &world{}; routers[i] = build(w[i], i == 1, rvCapture) }
 
 	fkForce := -1
 	onePanic := func(special int, rq reqSpec, where int, acts []act, progress string, val *pv, hd hdrs) {
+		variant := rvCapture
+		if rvForce >= 0 {
+			variant = rvForce
+		} else if k := rnd.Intn(100); k < 40 {
+			variant = []int{rvDiscard, rvAboveError, rvFailing, rvFailing, rvDiscard, rvAboveError, rvRecovery, rvCustom}[k%8]
+		}
 		f, wd := routers[special], w[special]
+		if variant != rvCapture {
+			if vrouters[variant][special] == nil {
+				vw[variant][special] = &world{}
+				vrouters[variant][special] = build(vw[variant][special], special == 1, variant)
+			}
+			f, wd = vrouters[variant][special], vw[variant][special]
+		}
 		foxHandler := rq.scope == "RedirectHandler" || (rq.fox && special == 0)
 		if foxHandler && (where == inHandler || where == inHandlerUpdates || where == inHandlerView) {
 			return // nothing of ours runs inside a handler fox supplies
@@ -787,8 +855,12 @@ func main() {
 		fu := followup(f)
 		wr := writeProbe(f)
 		rs := routesOf(f) == before
-		if !wr {
-			rebuild(special) // the lock is stuck: do not let it poison the following cases
+		if !wr { // the lock is stuck: do not let it poison the following cases
+			if variant == rvCapture {
+				rebuild(special)
+			} else {
+				vrouters[variant][special] = nil
+			}
 		}
 
 		// the actions the model is given
@@ -834,14 +906,14 @@ func main() {
 			recHuman = append(recHuman, fmt.Sprintf("%q attrs=%v", head, r.attrs))
 		}
 		hasRoute := rq.scope == "RouteHandler"
-		q := fmt.Sprintf("(Q %s %s %s %s %s)", rq.scope, cb(rq.pattern), hx.Bool(hasRoute), kvList(rq.params), cb(string(dump)))
+		q := fmt.Sprintf("(Q %s %s %s %s %s %s)", rq.scope, cb(rq.pattern), hx.Bool(hasRoute), kvList(rq.params), cb(string(dump)), hx.Bool(rvEnabled(variant)))
 		reqline := rq.method + " " + rq.target + " HTTP/1.1"
 		status := 0
 		if u.wrote {
 			status = u.status
 		}
-		obs := fmt.Sprintf("(PO %s %s %s %s %s %s %s %s %s %s)", esc, hx.Bool(p.preWrote), hx.Bool(u.digest() == p.snapshot), hx.Bool(u.wrote),
-			hx.Z(int64(status)), cb(string(u.body)), hx.List(recs), hx.Bool(fu), hx.Bool(wr), hx.Bool(rs))
+		obs := fmt.Sprintf("(PO %s %s %s %s %s %s %s %s %s %s %s)", esc, hx.Bool(p.preWrote), hx.Bool(u.digest() == p.snapshot), hx.Bool(u.wrote),
+			hx.Z(int64(status)), cb(string(u.body)), hx.List(recs), hx.Bool(rvVisible(variant)), hx.Bool(fu), hx.Bool(wr), hx.Bool(rs))
 		term := fmt.Sprintf("(CPanic %s %s %s %s %s %s)", q, cb(reqline), kvList(hd.spec),
 			hx.ListOf(macts, func(a act) string { return a.coq() }), fin, obs)
 		var ah []string
@@ -853,11 +925,12 @@ func main() {
 		if val != nil {
 			vh, class = "panic("+val.human+")", val.class
 		}
-		human := fmt.Sprintf("%s %s (%s, custom-special-handlers=%v) headers {%s} | site=%s before-panic=[%s] %s => escaped=%s wrote=%v status=%d body=%q untouched-since-panic=%v records=%s followup-ok=%v write-ok=%v routes-same=%v",
+		human := fmt.Sprintf("%s %s (%s, custom-special-handlers=%v, "+rvNames[variant]+") headers {%s} | site=%s before-panic=[%s] %s => escaped=%s wrote=%v status=%d body=%q untouched-since-panic=%v records=%s followup-ok=%v write-ok=%v routes-same=%v",
 			rq.method, rq.target, rq.scope, special == 1, strings.Join(hd.desc, "; "), whereNames[where], strings.Join(ah, "; "), vh, esc, u.wrote, status, u.body, u.digest() == p.snapshot, strings.Join(recHuman, " || "), fu, wr, rs)
 		if emit(term, human, val != nil) {
 			st.Count("panic-value:" + class)
 			st.Count("scope:" + rq.scope)
+			st.Count("recovery:" + rvNames[variant])
 			st.Count("site:" + whereNames[where])
 			st.Count("progress:" + map[bool]string{true: "started", false: "not-started"}[p.preWrote])
 			if where != inMWAfter || !foxHandler {
@@ -912,6 +985,15 @@ func main() {
 			onePanic(vi%2, requests[vi%5], hx.Pick(rnd, []int{inHandler, inMWBefore}), []act{{flush: true}}, "flush-only", &curated[vi], genHeaders(rnd, st))
 		}
 		fkForce = -1
+		// nothing written x every curated value x every way of building the middleware / every log handler
+		for rv := 1; rv < nRecoveryVariants; rv++ {
+			if rv >= rvRecovery && vi%4 != 0 && tier != "thorough" {
+				continue // fox's own handler prints to stderr: a sample is enough in the quick tier
+			}
+			rvForce = rv
+			onePanic(vi%2, requests[(vi+rv)%len(requests)], hx.Pick(rnd, []int{inHandler, inMWBefore}), nil, "nothing", &curated[vi], genHeaders(rnd, st))
+		}
+		rvForce = -1
 	}
 	for i := 0; i < nrandom; i++ {
 		t := genTree(rnd, 3)
